@@ -43,6 +43,9 @@ def run_stage(work, drive, st, seed, out, model_invs, model_props):
     trace = work.path("trace-%s.ndjson" % tag)
     stats = work.path("stats-%s.json" % tag)
     useed = st.kw.get("useed", seed)
+    if "variant" in st.kw:
+        # e.g. "386": the portable (non-assembly) 16-slot routines and 32-bit int/uint
+        drive = build_harness(work, st.kw["variant"])
     if st.typ in ("model", "sim"):
         uni = universe_json(drive, st.kind, st.uname, st.size, useed)
         if st.typ == "model":
@@ -52,8 +55,11 @@ def run_stage(work, drive, st, seed, out, model_invs, model_props):
             r = run_model(work, mod, edges, workers=st.kw.get("workers", 4), timeout=st.kw.get("timeout", 3000))
         else:
             num, depth = st.kw.get("num", 20), st.kw.get("depth", 120)
+            full = st.kw.get("start_full", False)
+            if full:
+                depth += sum(1 for k in uni["keys"] if not k["probe"])   # the history starts with the inserts that fill the tree
             mod = write_mc(work, "s" + tag, uni, emit=False, max_depth=depth, ramp=st.kw.get("ramp", True),
-                           invariants=st.kw.get("invs", model_invs), props=[])
+                           invariants=st.kw.get("invs", model_invs), props=[], start_full=full)
             edges = work.path("hist-%s.ndjson" % tag)
             r = run_model(work, mod, edges, simulate=(num, depth), seed=seed, timeout=st.kw.get("timeout", 3000))
         run = {"stage": st.label(), "states": r.states, "transitions": r.transitions, "emitted": r.edges,
@@ -91,7 +97,7 @@ def run_stage(work, drive, st, seed, out, model_invs, model_props):
         args = ["random", "-kind", st.kind, "-u", st.uname, "-size", st.size, "-seed", str(useed), "-out", trace,
                 "-battery", st.battery, "-stats", stats, "-n", str(st.kw.get("n", 10)), "-len", str(st.kw.get("len", 60)),
                 "-batevery", str(st.kw.get("batevery", 1)), "-dumpevery", str(st.kw.get("dumpevery", 1))]
-        run_drive(st.kw.get("drive", drive), args)
+        run_drive(drive, args)
         return ("trace", st, trace, stats, None)
     if st.typ == "arena":
         # []byte keys handed over in caller-owned buffers (sub-slices, records with adjacent fields, scanner buffers)
